@@ -265,7 +265,21 @@ impl Drop for SyncAllocatorInner {
 ///
 /// Returns the new boundary (the last accessible page) or an I/O error.
 fn grow(file: &File, page: PageNumber) -> std::io::Result<PageNumber> {
+    #[cfg(not(nomt_verif))]
     let next_bump = (page.0 + GROW_STORE_BY_PAGES - 1).next_multiple_of(GROW_STORE_BY_PAGES);
+    #[cfg(nomt_verif)]
+    let next_bump = {
+        let grow_by = crate::verif::knob("store.grow_pages")
+            .map(|x| x as u32)
+            .unwrap_or(GROW_STORE_BY_PAGES);
+        (page.0 + grow_by - 1).next_multiple_of(grow_by)
+    };
+    #[cfg(nomt_verif)]
+    crate::verif::io(
+        file.as_raw_fd(),
+        crate::verif::Op::SetLen(next_bump as u64 * PAGE_SIZE as u64),
+        "store.grow",
+    )?;
     file.set_len(next_bump as u64 * PAGE_SIZE as u64)?;
     Ok(PageNumber(next_bump))
 }
